@@ -187,6 +187,23 @@ pub fn help_path(def: &J, text: &str) -> Option<Vec<String>> {
             None => break,
         }
     }
+    // an adjacent subcommand of the level reached: its help lists its own members
+    if let Some(named) = level.get("named").and_then(J::as_array) {
+        for f in named {
+            if s(f, "kind") == "adj" && s(&f["head"], "kind") == "cmd" {
+                let lists_member = f["members"].as_array().map_or(false, |ms| {
+                    ms.iter().any(|m| {
+                        let h = s(m, "help");
+                        !h.is_empty() && text.contains(h)
+                    })
+                });
+                if lists_member {
+                    path.push(f["head"]["names"][0].as_str().unwrap_or("").to_string());
+                    break;
+                }
+            }
+        }
+    }
     Some(path)
 }
 
